@@ -175,9 +175,85 @@ pub struct World {
     /// serial-number level facts of the last projection
     pub last_keys: Value,
     pub rrdp_problems: Vec<String>,
+    /// router keys by label ("k1", ...): the signing request and the key
+    /// identifier
+    rtr_keys: BTreeMap<String, (rpki::ca::csr::BgpsecCsr, String)>,
+}
+
+/// A BGPsec router key signing request for a fresh P-256 key.
+fn make_router_csr() -> rpki::ca::csr::BgpsecCsr {
+    use openssl::ec::{EcGroup, EcKey};
+    use openssl::hash::MessageDigest;
+    use openssl::nid::Nid;
+    use openssl::x509::{X509NameBuilder, X509ReqBuilder};
+    let group = EcGroup::from_curve_name(Nid::X9_62_PRIME256V1).unwrap();
+    let key = openssl::pkey::PKey::from_ec_key(
+        EcKey::generate(&group).unwrap()
+    ).unwrap();
+    let mut name = X509NameBuilder::new().unwrap();
+    name.append_entry_by_text("CN", "ROUTER-0000FA01").unwrap();
+    let name = name.build();
+    let mut req = X509ReqBuilder::new().unwrap();
+    req.set_version(0).unwrap();
+    req.set_subject_name(&name).unwrap();
+    req.set_pubkey(&key).unwrap();
+    let mut exts = openssl::stack::Stack::new().unwrap();
+    exts.push(
+        openssl::x509::extension::ExtendedKeyUsage::new()
+            .other("1.3.6.1.5.5.7.3.30").build().unwrap()
+    ).unwrap();
+    req.add_extensions(&exts).unwrap();
+    req.sign(&key, MessageDigest::sha256()).unwrap();
+    rpki::ca::csr::BgpsecCsr::decode(
+        req.build().to_der().unwrap().as_slice()
+    ).unwrap()
 }
 
 impl World {
+    /// The signing request for the router key with the given label.
+    fn rtr_key(&mut self, label: &str) -> (rpki::ca::csr::BgpsecCsr, String) {
+        if !self.rtr_keys.contains_key(label) {
+            let csr = make_router_csr();
+            let ki = csr.public_key().key_identifier().to_string();
+            self.rtr_keys.insert(label.to_string(), (csr, ki));
+        }
+        self.rtr_keys[label].clone()
+    }
+
+    /// The label of a router key ("?" + identifier if unknown).
+    fn rtr_label(&self, ki: &str) -> String {
+        self.rtr_keys.iter().find(|(_, v)| v.1.eq_ignore_ascii_case(ki))
+            .map(|(k, _)| k.clone()).unwrap_or(format!("?{ki}"))
+    }
+
+    /// Adds / removes a router key definition: r = [AS atom, "rtr:<label>"].
+    pub fn rtr_update(
+        &mut self, ca: &str, r: &[String], add: bool,
+    ) -> Result<(), String> {
+        use krill::api::bgpsec::{
+            BgpSecAsnKey, BgpSecDefinition, BgpSecDefinitionUpdates,
+        };
+        let asn = rpki::resources::Asn::from_u32(asn_num(&r[0]));
+        let label = r[1].trim_start_matches("rtr:").to_string();
+        let (csr, _) = self.rtr_key(&label);
+        let updates = if add {
+            BgpSecDefinitionUpdates {
+                add: vec![BgpSecDefinition { asn, csr }], remove: vec![],
+            }
+        }
+        else {
+            BgpSecDefinitionUpdates {
+                add: vec![],
+                remove: vec![BgpSecAsnKey {
+                    asn, key: csr.public_key().key_identifier(),
+                }],
+            }
+        };
+        self.env.krill.ca_manager().ca_bgpsec_definitions_update(
+            ca_handle(ca), updates, &self.actor, &self.env.krill
+        ).map_err(|e| e.to_string())
+    }
+
     pub fn create(dir: &Path, opts: EnvOpts) -> Result<Self, String> {
         let env = Env::create(dir, opts)?;
         let mut world = World {
@@ -185,6 +261,7 @@ impl World {
             keys: HashMap::new(), objs: HashMap::new(),
             serials: HashMap::new(),
             cas: Vec::new(), rrdp_problems: Vec::new(),
+            rtr_keys: BTreeMap::new(),
             key_roles: HashMap::new(), top: "A".into(),
             last_keys: Value::Null,
         };
@@ -1041,6 +1118,15 @@ impl World {
                             .collect()
                     ));
                 }
+                // router keys: [AS atom, "rtr:<label>"]
+                for info in live.bgpsec_definitions_show().as_slice() {
+                    rs.insert(vec![
+                        asn_atom(info.asn.into_u32()),
+                        format!("rtr:{}", self.rtr_label(
+                            &info.key_identifier.to_string()
+                        )),
+                    ]);
+                }
                 routes.insert(name.clone(), json!(rs));
             }
             // the children this CA knows
@@ -1260,6 +1346,16 @@ impl World {
             }
             vrps.insert(vec![prefix_atom(&v.0), asn_atom(v.2), ca]);
         }
+        for r in &res.router_keys {
+            let (ca, role) = self.key_roles.get(&r.2).cloned()
+                .unwrap_or(("?".into(), "?".into()));
+            if role != "cur" && role != "old" {
+                odd.push(format!("router key under key {ca}:{role}"));
+            }
+            vrps.insert(vec![
+                asn_atom(r.0), format!("rtr:{}", self.rtr_label(&r.1)), ca,
+            ]);
+        }
         for a in &res.aspas {
             let (ca, role) = self.key_roles.get(&a.2).cloned()
                 .unwrap_or(("?".into(), "?".into()));
@@ -1424,6 +1520,40 @@ impl World {
                             }
                             let subject
                                 = cert.subject_key_identifier().to_string();
+                            if !cert.basic_ca().unwrap_or(false) {
+                                // a router certificate
+                                {
+                                    let kname = self.key_name(&aki);
+                                    let serial = cert.serial_number();
+                                    let id = self.obj_id(
+                                        &kname, &serial.to_string(),
+                                        Some(serial)
+                                    );
+                                    keyfacts.entry(kname).or_default()
+                                        .roas.insert(id);
+                                }
+                                let label = self.rtr_label(&subject);
+                                for block in cert.as_resources().to_blocks()
+                                    .iter().flat_map(|b| b.iter())
+                                {
+                                    let t = vec![
+                                        asn_atom(block.min().into_u32()),
+                                        format!("rtr:{label}"),
+                                    ];
+                                    if role == "cur" {
+                                        vrps.insert(t);
+                                    }
+                                    else if role == "old" {
+                                        ovrps.insert(t);
+                                    }
+                                    else {
+                                        stray.push(format!(
+                                            "router cert under key {role}"
+                                        ));
+                                    }
+                                }
+                                continue
+                            }
                             let (child, crole) = self.key_roles.get(&subject)
                                 .cloned().unwrap_or(("?".into(), "?".into()));
                             let set = ResourceSet::try_from(&cert).ok();
@@ -1694,6 +1824,14 @@ pub fn apply_action(w: &mut World, action: &Value) -> Result<Value, String> {
             )?;
             Ok(json!("ok"))
         }
+        "RtrAdd" => {
+            w.rtr_update(str_arg(action, "c"), &list_arg(action, "r"), true)?;
+            Ok(json!("ok"))
+        }
+        "RtrDel" => {
+            w.rtr_update(str_arg(action, "c"), &list_arg(action, "r"), false)?;
+            Ok(json!("ok"))
+        }
         "RoaDelta" => {
             w.roa_update(
                 str_arg(action, "c"), &list_arg(action, "add"),
@@ -1838,6 +1976,8 @@ pub fn run(behaviours: &Path, out: &Path, workdir: &Path, memory: bool) {
         refill_keys(idx * 37);
         trace.push(&json!({
             "ev": "reset", "behaviour": id,
+            "agg": beh.get("agg").and_then(|x| x.as_u64()).unwrap_or(100),
+            "deagg": beh.get("deagg").and_then(|x| x.as_u64()).unwrap_or(90),
             "mftdue": beh.get("mftdue").and_then(|x| x.as_bool())
                 .unwrap_or(false),
             "objdue": beh.get("objdue").and_then(|x| x.as_bool())
